@@ -67,7 +67,11 @@ theorem routes_agree_scalar (records : List (Rat × Rat)) (a : Rat) (hn : 2 ≤ 
     fromStatistics P.dropLast (diffs t) (.scalar a) = fromSeries t P (.scalar a) := by
   refine ⟨rfl, ?_, ?_⟩
   · simp only [fromProto, fromSeries, List.map_map, Function.comp_def, List.length_map]
-    have hall : (records.map fun _ => (0 : Rat)).all (· == 0) = true := by simp
+    have hall : (heldSamples (records.map fun _ => (0 : Rat))).all (· == 0) = true := by
+      unfold heldSamples; split
+      · simp only [List.all_eq_true]; intro x hx
+        have := List.dropLast_subset _ hx; simp at this; simp [this.2]
+      · simp
     simp only [hall, if_true, auxFor, List.length_replicate]
     have : records.length > 1 := by omega
     simp only [this, if_true, List.length_dropLast, List.length_map]
@@ -77,10 +81,10 @@ theorem routes_agree_scalar (records : List (Rat × Rat)) (a : Rat) (hn : 2 ≤ 
 
 /-- **Routes agree (per-sample auxiliary power).** -/
 theorem routes_agree_series (records : List (Rat × Rat × Rat)) (auxMsg : Rat) (hn : 2 ≤ records.length)
-    (hnz : (records.map (·.2.2)).all (· == 0) = false) :
+    (hnz : (heldSamples (records.map (·.2.2))).all (· == 0) = false) :
     fromProto records auxMsg =
       fromSeries (records.map (·.1)) (records.map (·.2.1)) (.series (records.map (·.2.2))) := by
-  simp [fromProto, hnz]
+  simp only [fromProto, hnz]; rfl
 
 /-- A single auxiliary value is the constant series. -/
 theorem aux_scalar_is_constant (n : Nat) (a : Rat) (hn : 2 ≤ n) :
@@ -91,6 +95,39 @@ theorem aux_scalar_is_constant (n : Nat) (a : Rat) (hn : 2 ≤ n) :
 /-- A per-sample series is cut to the number of intervals. -/
 theorem aux_series_truncated (n : Nat) (as : List Rat) (h : 1 < as.length) : auxFor n (.series as) = as.take n := by
   simp [auxFor, h]
+
+/-- **The closing sample decides nothing** (protobuf route): two messages that agree on every record that is held over an interval
+give the same prepared profile, whatever auxiliary power their closing records carry. -/
+theorem proto_closing_aux_irrelevant (base : List (Rat × Rat × Rat)) (t p x y auxMsg : Rat) (hb : 2 ≤ base.length) :
+    fromProto (base ++ [(t, p, x)]) auxMsg = fromProto (base ++ [(t, p, y)]) auxMsg := by
+  have key : ∀ z : Rat, fromProto (base ++ [(t, p, z)]) auxMsg =
+      { P := base.map (·.2.1),
+        aux := if (base.map (·.2.2)).all (· == 0) then List.replicate base.length auxMsg else base.map (·.2.2),
+        dt := diffs (base.map (·.1) ++ [t]) } := by
+    intro z
+    have hlen : ((base ++ [(t, p, z)]).map (·.2.2)).length > 1 := by simp; omega
+    have hheld : heldSamples ((base ++ [(t, p, z)]).map (·.2.2)) = base.map (·.2.2) := by
+      unfold heldSamples; rw [if_pos hlen]; simp [List.dropLast_concat]
+    unfold fromProto
+    simp only [hheld]
+    unfold fromSeries
+    simp only [List.map_append, List.map_cons, List.map_nil, List.dropLast_concat, List.length_map, List.length_append,
+      List.length_singleton]
+    by_cases h0 : (base.map (·.2.2)).all (· == 0) = true
+    · simp only [h0, if_true, auxFor, List.length_replicate]
+      rw [if_pos (by omega), List.take_replicate]
+      congr 2; omega
+    · have h0' : ((base.map (·.2.2)).all (· == 0)) = false := by simpa using h0
+      simp only [h0', auxFor, List.length_append, List.length_map, List.length_singleton, Bool.false_eq_true, if_false]
+      rw [if_pos (by omega), List.take_append_of_le_length (by simp)]
+      simp
+  rw [key x, key y]
+
+/-- As found, a closing record of 5 kW switched every earlier interval from the message-level 200 kW to 0 kW. -/
+theorem proto_closing_aux_legacy :
+    (fromProtoLegacy [(0, 100, 0), (10, 100, 0), (20, 100, 0)] 200).aux = [200, 200] ∧
+    (fromProtoLegacy [(0, 100, 0), (10, 100, 0), (20, 100, 5)] 200).aux = [0, 0] ∧
+    (fromProto [(0, 100, 0), (10, 100, 0), (20, 100, 5)] 200).aux = [200, 200] := by decide +kernel
 
 /-- **Split.** Each of `k` propulsors gets `P/k` as delivered power, each of `m` auxiliary loads
 `aux/m`; the shares add up to the whole. -/
